@@ -36,7 +36,7 @@ def sockEvents (kv : List (String × String)) : Option (List String) :=
   | none => none
 
 def sockOpOk (kv : List (String × String)) : Bool :=
-  ["id", "bs", "ca", "cb", "hb", "ri", "split", "quiet", "wait", "probe"].all (fun k => (kvNat? kv k).isSome)
+  ["id", "bs", "ca", "cb", "hb", "ri", "split", "quiet", "wait", "probe", "dyn", "val"].all (fun k => (kvNat? kv k).isSome)
   && (match kv.lookup "store" with | some s => s == "mem" || s == "file" | none => false)
   && (match kv.lookup "start" with | some s => s == "open" || s == "down" | none => false)
   && (match kv.lookup "stop" with | some s => s == "ia" || s == "ai" | none => false)
